@@ -187,6 +187,23 @@ def step (st : St) (line : String) : St × String :=
     | some t, some v =>
       (st, s!"ok {if isInstance Generated.bounds t v then 1 else 0} {repr (construct Generated.bounds t v)}")
     | _, _ => (st, "bad-op")
+  | "genenc" :: ver :: ndef :: toks =>
+    -- genenc <version> <n> <n definition tokens…> <value tokens…>: bytes of an instance of the
+    -- generated top-level class according to the spec and to the writer model
+    match ver.toNat?, ndef.toNat? with
+    | some v, some n =>
+      match Gen.parseMsgDef (toks.take n), parseValue (toks.drop n) with
+      | some d, some (val, []) =>
+        (match Gen.module d Generated.tables.builtins v with
+         | .ok gs => (match gs.getLast? with
+            | some g =>
+              let sp := match Spec.enc g.schema val with | some b => hexTok b | none => "none"
+              let im := match enc st.env g.schema val with | .ok b => hexTok b | .error e => "err:" ++ e.name
+              (st, s!"ok {sp} {im}")
+            | none => (st, "err empty"))
+         | .error e => (st, s!"err {repr e}"))
+      | _, _ => (st, "bad-op")
+    | _, _ => (st, "bad-op")
   | "gencheck" :: toks =>
     -- model-level checks on a definition: statements of C16 and coherence of every generated class
     match Gen.parseMsgDef toks with
